@@ -100,7 +100,8 @@ def digest_type_params(compiler, tp):
             if is_unpack("mapping", x) else
         asty.TypeVar(x[0],
                name = mangle(x[0]),
-               bound = x[1] and compiler.compile(x[1]).force_expr)
+               bound = None if x[1] is None
+                   else compiler.compile(x[1]).force_expr)
         for x in tp[0]])
 
 
